@@ -152,7 +152,7 @@ fn main() {
     }
 
     // 3. random volume
-    let n = check.tier.pick(30_000u32, 600_000);
+    let n = check.tier.pick(100_000u32, 1_500_000);
     let tier = check.tier;
     pt::run(
         &check,
